@@ -1,4 +1,271 @@
-/- C17 — property theorems (under construction). -/
-import Lmd.Print
+/-
+  C17 — a request serialises (`Request.String`) to an equivalent request.
+
+  The filter part is the classic postfix round trip.  Header lines are viewed as tokens
+  (`Tok`: a leaf line, `And: n` / `Or: n`, `Negate:`); `emit` lists the tokens in the order in which
+  `Filter.print` writes the lines, `run` is the stack machine `parseHeaderLine` implements for these
+  lines.  Definitions and helper lemmas live in `Lmd.Lemmas.Print`.
+
+    5. `run (emit f) st = st ++ [f]` for every tree without empty groups, any depth and width;
+    6. `Filter.print` writes exactly the lines of `emit` (both keyword flavours);
+    7. negation is an involution and is printed once per marked node;
+    8. queries read only the fields the round trip preserves;
+    9. the steps of `run` are what `parseHeaderLine` does on the printed group and negate lines.
+-/
+import Lmd.Lemmas.Print
+
 namespace Lmd.C17
+open Lmd
+
+/-! ## 5. the round trip -/
+
+/-- Reading back the header lines lmd prints for a filter tree rebuilds exactly that tree on top of
+    whatever is already on the stack — for every tree whose groups are non-empty, of any depth
+    and width, provided `Negate:` toggles (the repaired/current behaviour `negOr = false`). -/
+theorem forest_roundtrip (q : Quirks) (hq : q.negOr = false) (f : Filter) (wf : WellFormed f)
+    (st : List Filter) : run q (emit f) st = some (st ++ [f]) :=
+  run_emit q hq f wf st
+
+/-- The same for a whole filter stack (`Request.Filter`): printing the trees one after the other
+    and reading the lines back appends exactly these trees, in order. -/
+theorem forest_roundtrip_list (q : Quirks) (hq : q.negOr = false) (fs : List Filter)
+    (wf : ∀ f ∈ fs, WellFormed f) (st : List Filter) :
+    run q (fs.flatMap emit) st = some (st ++ fs) := by
+  rw [← emitList_eq_flatMap]
+  exact run_emitList q hq fs ((wellFormedList_iff fs).2 wf) st
+
+/-- In particular a printed request parses to the same filter stack when read from scratch. -/
+theorem forest_roundtrip_request (q : Quirks) (hq : q.negOr = false) (req : Request)
+    (wf : ∀ f ∈ req.filter, WellFormed f) :
+    run q (req.filter.flatMap emit) [] = some req.filter := by
+  simpa using forest_roundtrip_list q hq req.filter wf []
+
+private def leafA : Leaf := { col := emptyColumn, op := .eq, sval := "a" }
+private def leafB : Leaf := { col := emptyColumn, op := .ne, sval := "b" }
+private def leafC : Leaf := { col := emptyColumn, op := .ge, sval := "c" }
+
+/-- a three level tree with a negated group inside a negated group and a negated leaf -/
+private def tree3 : Filter :=
+  .grp false [.leaf leafA false,
+              .grp true [.leaf leafB true, .grp false [.leaf leafC false, .leaf leafA true] true] true] true
+
+/-- non-vacuity: the hypotheses hold for a three level tree with doubly nested negation, and the
+    tree round-trips (on a non-empty stack, too) -/
+example : WellFormed tree3 := by simp [tree3, WellFormed, WellFormedList]
+example : run Quirks.current (emit tree3) [.leaf leafC true] = some [.leaf leafC true, tree3] :=
+  forest_roundtrip Quirks.current rfl tree3 (by simp [tree3, WellFormed, WellFormedList]) _
+example : (emit tree3).length = 12 := by simp [tree3, emit, emitList]
+
+/-- the hypothesis on groups is needed: a group without members prints `And: 0`, which the parser
+    ignores, so the stack stays as it was -/
+example : run Quirks.current (emit (.grp true [] false)) [] = some [] := by
+  simp [emit, emitList, run, step]
+
+/-- the hypothesis on negation is needed: if `Negate:` sets the mark instead of toggling it, a
+    printed tree still reads back, but a line sequence with two `Negate:` does not cancel -/
+example : run { Quirks.current with negOr := true } [.leaf leafA, .neg, .neg] []
+    = some [.leaf leafA true] := by
+  simp [run, step, mapLast, Filter.setNeg]
+
+/-! ## 6. `Filter.print` writes the tokens of `emit` -/
+
+/-- The text lmd generates for a filter tree is the concatenation of the lines of `emit f`:
+    a leaf prints as its `Filter:` line, a group as `And: n` / `Or: n` after its members, a
+    negation mark as one `Negate:` line.  With `stats = true` the same holds for the keywords
+    `Stats:`, `StatsAnd:`, `StatsOr:`, `StatsNegate:`. -/
+theorem print_follows_emit (stats : Bool) (f : Filter) (wf : WellFormed f) :
+    Filter.print stats f = String.join ((emit f).map (Tok.line stats)) :=
+  print_emit stats f wf
+
+/-- The filter section of a printed request is the concatenation of the lines of all trees. -/
+theorem print_follows_emit_list (stats : Bool) (fs : List Filter) (wf : ∀ f ∈ fs, WellFormed f) :
+    Filter.printList stats fs = String.join ((fs.flatMap emit).map (Tok.line stats)) := by
+  rw [← emitList_eq_flatMap]
+  exact printList_emit stats fs ((wellFormedList_iff fs).2 wf)
+
+/-- A counter entry of `Request.Stats` is printed with the Stats flavour of the same lines. -/
+theorem stats_print_follows_emit (f : Filter) (wf : WellFormed f) :
+    StatsEntry.print (.counter f) = String.join ((emit f).map (Tok.line true)) :=
+  print_emit true f wf
+
+/-- what the individual lines look like -/
+theorem tok_lines (l : Leaf) (n : Nat) :
+    Tok.line false (.leaf l) = l.printLine "Filter" ∧ Tok.line true (.leaf l) = l.printLine "Stats"
+    ∧ Tok.line false (.grp true n) = "And: " ++ toString n ++ "\n"
+    ∧ Tok.line false (.grp false n) = "Or: " ++ toString n ++ "\n"
+    ∧ Tok.line true (.grp true n) = "StatsAnd: " ++ toString n ++ "\n"
+    ∧ Tok.line true (.grp false n) = "StatsOr: " ++ toString n ++ "\n"
+    ∧ Tok.line false .neg = "Negate:\n" ∧ Tok.line true .neg = "StatsNegate:\n" := by
+  simp [Tok.line, String.append_assoc]
+
+example : Filter.print false (.grp true [.grp false [] false, .leaf leafA true] true)
+    ≠ String.join ((emit (.grp true [.grp false [] false, .leaf leafA true] true)).map (Tok.line false)) := by
+  decide
+
+/-! ## 7. negation -/
+
+/-- With toggling negation, negating twice gives the filter back — which is why one printed
+    `Negate:` line reproduces a mark and no mark prints no line. -/
+theorem setNeg_involutive (q : Quirks) (hq : q.negOr = false) (f : Filter) :
+    (f.setNeg q).setNeg q = f := by
+  cases f <;> simp [Filter.setNeg, hq]
+
+/-- The mark set by one `Negate:` on a fresh node: an unmarked node becomes marked. -/
+theorem setNeg_marks (q : Quirks) (hq : q.negOr = false) (l : Leaf) (a : Bool) (fs : List Filter) :
+    (Filter.leaf l false).setNeg q = .leaf l true ∧ (Filter.grp a fs false).setNeg q = .grp a fs true := by
+  simp [Filter.setNeg, hq]
+
+/-- the involution fails under the old "set the mark" behaviour -/
+example : ((Filter.leaf leafA false).setNeg { Quirks.current with negOr := true }).setNeg
+    { Quirks.current with negOr := true } = .leaf leafA true := by
+  simp [Filter.setNeg]
+
+/-- `Filter.print` writes at most one `Negate:` line per node: the number of `Negate:` lines is the
+    number of marked nodes (so at most the number of nodes), and no two `Negate:` lines follow
+    each other directly. -/
+theorem negate_printed_once (f : Filter) :
+    (emit f).countP Tok.isNeg = negCount f ∧ negCount f ≤ nodeCount f ∧ noNegNeg (emit f) = true :=
+  ⟨countP_emit f, negCount_le f, (emit_shape f).1⟩
+
+example : (emit tree3).countP Tok.isNeg = 5 ∧ nodeCount tree3 = 7 := by
+  simp [tree3, emit, emitList, Tok.isNeg, nodeCount, nodeCountList, List.countP_cons]
+
+/-! ## 8. what a query reads of a request -/
+
+/-- The rows a data query returns depend only on the filter stack, the sort fields, limit, offset,
+    authorised user, backends, table name and output format of the request; two requests that
+    agree on these give the same result.  Together with the round trip of the filter stack this is
+    "the serialised request selects the same rows". -/
+theorem semantics_preserved (m : EvalMode) (s : Schema) (ds : Dataset) (t : Table) (r1 r2 : Request)
+    (hf : r1.filter = r2.filter) (hs : r1.sort = r2.sort) (hl : r1.limit = r2.limit)
+    (ho : r1.offset = r2.offset) (ha : r1.authUser = r2.authUser) (hb : r1.backends = r2.backends)
+    (ht : r1.table = r2.table) (hfmt : r1.outFmt = r2.outFmt) :
+    dataQuery m s ds t r1 = dataQuery m s ds t r2 := by
+  simp only [dataQuery, selectBackends_congr ds t r1 r2 hb,
+    gatherRows_congr m _ t r1 r2 hf hs hl ho ha ht hfmt, hs, hl, ho]
+
+/-- The same for Stats queries: they read the filter stack, the stats entries, the columns, the
+    authorised user and the backends. -/
+theorem semantics_preserved_stats (m : StatsMode) (s : Schema) (ds : Dataset) (t : Table)
+    (r1 r2 : Request) (hf : r1.filter = r2.filter) (hs : r1.stats = r2.stats)
+    (hc : r1.columns = r2.columns) (ha : r1.authUser = r2.authUser) (hb : r1.backends = r2.backends) :
+    statsQuery m s ds t r1 = statsQuery m s ds t r2 := by
+  simp only [statsQuery, selectBackends_congr ds t r1 r2 hb, gatherStats_congr m _ t r1 r2 _ hf hs ha, hs, hc]
+
+/-- non-vacuity: two different requests that agree on everything a query reads -/
+example : ({ table := "hosts", keepAlive := true } : Request).filter = ({ table := "hosts", fixed16 := true } : Request).filter
+    ∧ ({ table := "hosts", keepAlive := true } : Request).keepAlive ≠ ({ table := "hosts", fixed16 := true } : Request).keepAlive := by
+  simp
+
+/-! ## 9. the token machine is the header-line parser -/
+
+/-- `strconv.Atoi` reads the number of a printed group line back. -/
+theorem atoi_reads_printed_number (n : Nat) : atoi? (toString n) = some (n : Int) := atoi_toString n
+
+/-- Parsing the printed line `And: n` / `Or: n` does to the filter stack exactly what the `grp`
+    step does (including failure on a too short stack), and touches nothing else of the request. -/
+theorem parser_step_grp (o : ParseOpts) (t : Table) (req : Request) (a : Bool) (n : Nat) :
+    (parseHeaderLine o t req ((if a then "And: " else "Or: ") ++ toString n)).toOption
+      = (step o.q req.filter (.grp a n)).map (fun f => { req with filter := f }) := by
+  cases a
+  · simp only [Bool.false_eq_true, if_false, headerLine_or, toOption_map,
+      groupOp_eq_step o.q false (toString n) n req.filter (atoi_toString n)]
+  · simp only [if_true, headerLine_and, toOption_map,
+      groupOp_eq_step o.q true (toString n) n req.filter (atoi_toString n)]
+
+/-- Parsing the printed line `Negate:` is the `neg` step. -/
+theorem parser_step_neg (o : ParseOpts) (t : Table) (req : Request) :
+    (parseHeaderLine o t req "Negate:").toOption
+      = (step o.q req.filter .neg).map (fun f => { req with filter := f }) := by
+  rw [headerLine_negate, toOption_map, negateTop_eq_step]
+
+/-- A `Filter:` line whose text parses to the leaf `l` is the `leaf l` step: it pushes the
+    unmarked leaf (and counts one more filter line). -/
+theorem parser_step_leaf (o : ParseOpts) (t : Table) (req : Request) (v : String) (l : Leaf)
+    (h : parseFilterLeaf o t (trimLeftSpaces (" " ++ v)) = .ok l) :
+    ∃ r, parseHeaderLine o t req ("Filter: " ++ v) = .ok r ∧ step o.q req.filter (.leaf l) = some r.filter
+      ∧ r = { req with filter := r.filter, numFilter := req.numFilter + 1 } := by
+  refine ⟨_, by rw [headerLine_filter, h]; rfl, rfl, rfl⟩
+
+/-- `StatsAnd: n` / `StatsOr: n` over `n > 0` counter entries groups them like `And: n` / `Or: n`
+    groups filters (the Stats stack machine is the same machine on counters). -/
+theorem parser_step_stats_grp (o : ParseOpts) (t : Table) (a : Bool)
+    (keep : List StatsEntry) (fs : List Filter) (hne : fs ≠ []) :
+    statsGroupOp o t a (toString fs.length) (keep ++ fs.map StatsEntry.counter)
+      = .ok (keep ++ [.counter (.grp a fs false)]) :=
+  statsGroupOp_counters o t a _ keep fs hne (atoi_toString fs.length)
+
+/-- `StatsNegate:` on a counter toggles the mark of its tree like `Negate:` does. -/
+theorem parser_step_stats_neg (q : Quirks) (f : Filter) :
+    StatsEntry.setNeg q (.counter f) = .counter (f.setNeg q) := rfl
+
+/-! ## 10. the printed text through the real line parser -/
+
+/-- The printed group and negate lines are header lines in the sense of `LineOf`: `parseHeaderLines`
+    passes them on untrimmed and they act as the corresponding token. -/
+theorem printed_lines_are_tokens (o : ParseOpts) (t : Table) (a : Bool) (n : Nat) :
+    LineOf o t ((if a then "And: " else "Or: ") ++ toString n) (.grp a n) ∧ LineOf o t "Negate:" .neg :=
+  ⟨lineOf_grp o t a n, lineOf_neg o t⟩
+
+/-- Feeding the lines of a printed filter tree to the header-line parser (`parseHeaderLines`, the
+    loop of `NewRequest`) puts exactly this tree on top of the filter stack.
+
+    Partial: it assumes that every leaf line reads back as its leaf (`hll`: the text `ll l` is the
+    line `Filter.print` writes for `l`, and `parseHeaderLine` turns it into `l`).  This leaf-level
+    round trip is not proved here and does not hold for arbitrary `Leaf` records (the number, the
+    compiled regular expression and the optional-flags copy must be the ones the parser computes from
+    the text, and operators rewritten by the optimiser print differently); everything above the
+    leaves — groups of any depth and width, negation marks — is covered unconditionally. -/
+theorem printed_filter_parses_partial (o : ParseOpts) (t : Table) (hq : o.q.negOr = false)
+    (f : Filter) (wf : WellFormed f) (ll : Leaf → String)
+    (hll : ∀ l, Tok.leaf l ∈ emit f → ll l ++ "\n" = l.printLine "Filter" ∧ LineOf o t (ll l) (.leaf l))
+    (req : Request) :
+    Filter.print false f = String.join (((emit f).map (tokHeader ll)).map (· ++ "\n"))
+    ∧ (parseHeaderLines o t req ((emit f).map (tokHeader ll))).toOption.map (·.filter)
+        = some (req.filter ++ [f]) := by
+  constructor
+  · rw [print_emit false f wf, lines, List.map_map]
+    congr 1
+    apply List.map_congr_left
+    intro tok htok
+    exact (tokHeader_line ll tok (fun l e => (hll l (e ▸ htok)).1)).symm
+  · rw [parseHeaderLines_run o t (tokHeader ll) (emit f), run_emit o.q hq f wf]
+    intro tok htok
+    cases tok with
+    | leaf l => exact (hll l htok).2
+    | grp a n => exact lineOf_grp o t a n
+    | neg => exact lineOf_neg o t
+
+private def nameCol : Column := { name := "name", dtype := .str, storage := .loc }
+private def hostsT : Table := { name := "hosts", cols := [nameCol] }
+private def opts0 : ParseOpts := { optimize := false, q := Quirks.current }
+private def leafN : Leaf := { col := nameCol, op := .eq, sval := "a" }
+
+private theorem leafN_line : LineOf opts0 hostsT "Filter: name = a" (.leaf leafN) := by
+  refine ⟨by decide, by decide, ?_⟩
+  intro req
+  have e : ("Filter: name = a" : String) = "Filter: " ++ "name = a" := by decide
+  have p : parseFilterLeaf opts0 hostsT (trimLeftSpaces (" " ++ "name = a")) = .ok leafN := by rfl
+  rw [e, headerLine_filter, p]
+  rfl
+
+/-- non-vacuity of the leaf hypothesis: a concrete table, a concrete leaf line, a negated group of
+    a negated and a plain leaf; the printed lines parse back to the tree -/
+example : (parseHeaderLines opts0 hostsT {}
+      ["Filter: name = a", "Negate:", "Filter: name = a", "And: 2", "Negate:"]).toOption.map (·.filter)
+    = some [.grp true [.leaf leafN true, .leaf leafN false] true] := by
+  have h := (printed_filter_parses_partial opts0 hostsT rfl
+    (.grp true [.leaf leafN true, .leaf leafN false] true) (by simp [WellFormed, WellFormedList])
+    (fun _ => "Filter: name = a")
+    (by
+      intro l hl
+      have : l = leafN := by
+        simp [emit, emitList] at hl
+        exact hl
+      subst this
+      exact ⟨by decide, leafN_line⟩) {}).2
+  simp only [emit, emitList, tokHeader, List.map, List.cons_append, List.nil_append, List.append_nil,
+    if_true, List.length_cons, List.length_nil] at h
+  exact h
+
 end Lmd.C17
